@@ -1861,12 +1861,14 @@ def _top_level_members(ty):
     return out
 
 
-def check_encode_modes(ctx, f, rule="R-SIB"):
+def check_encode_modes(ctx, f, rule="R-SIB", reach=None):
     """bcder's `Values for Captured` panics when a value captured in BER mode is written by an encoder running in DER
     mode ("Trying to encode a captured value with incompatible mode").  The encoders of this crate run in DER mode
     (`to_captured()` = `Captured::from_values(Mode::Der, ..)`), and a decoder in relaxed mode captures in BER mode.  So a
     `Captured` field that some decoding path reachable in BER mode fills must not be handed to a bcder encoder as a
-    `Captured` (it has to be written as the octets it holds).  One obligation per such hand-over site."""
+    `Captured` (it has to be written as the octets it holds).  One obligation per such hand-over site — in a function that
+    can run on a decoded value at all (`reach`: what is reachable from the decoders and from the accessors of decoded
+    values; an encoder only ever used while *building* a value sees DER captures by construction)."""
     ber, parent, roots = ber_reachable(f)
     n_sites = 0
     ber_fill = {}
@@ -1895,13 +1897,18 @@ def check_encode_modes(ctx, f, rule="R-SIB"):
                         if cb is not None and any((cc.name or "").startswith("capture") and cc.krate == "bcder" for cc in cb.calls()):
                             return True
                 return False
-            if has_capture(v):
+            vs = [v]
+            if v[0] == "var":
+                vs = [t2 for _, t2 in sym_of(b).defs_of_var(v[2])]      # `match res { Some(c) => c, None => Captured::empty(..) }`
+            if any(has_capture(x) for x in vs):
                 who.append(b.name)
         ber_fill[key] = sorted(set(who))
         return ber_fill[key]
 
     for name, b in sorted(f.bodies.items()):
         if is_derived_body(b):
+            continue
+        if reach is not None and name not in reach and root_fn_name(f, name) not in reach:
             continue
         for c in b.calls():
             if b.is_cleanup(c.bb) or not c.is_static or not (c.res or "").startswith("bcder::") or not c.ga:
